@@ -11,7 +11,7 @@ accepted when dominated by an `== INFINITY` guard on that name.
 """
 import ast
 
-from sa.model import norm_text, mangle
+from sa.model import norm_text, mangle, canon_text
 
 
 def _is_inf_test(test, name_text):
@@ -149,13 +149,13 @@ def unsafe_uses(W, funcs):
                 continue
             if isinstance(recv, ast.Name) and guarded(f.node, par, n, recv.id):
                 continue
-            out.append((f, n, op, norm_text(recv)[:60], why))
+            out.append((f, n, op, norm_text(recv)[:60], why, canon_text(f.node, recv)))
     return out, examined, safety
 
 
 # uses accepted although the receiver is not provably a proper point, one reason each
 ACCEPTED = {
-    ("ellipticcurve:PointJacobi._maybe_precompute", "scale", "doubler.double()"):
+    ("ellipticcurve:PointJacobi._maybe_precompute", "scale", "_.double()"):
         "A5: the table is built only for a point with a declared order; the supported orders are odd primes, so no 2^i * G is the identity or of order two and double() never returns INFINITY here",
 }
 
@@ -170,12 +170,12 @@ def rule(chk, W, rid, pid, funcs, floor):
     if safety.get("__neg__", (True,))[0] or not safety.get("__add__", (False,))[0]:
         pass  # classification changed: reported through the uses below
     seen = set()
-    for f, n, op, recv, why in uses:
-        k = (f.qname, op, recv)
+    for f, n, op, recv, why, crecv in uses:
+        k = (f.qname, op, crecv)
         if k in ACCEPTED:
             seen.add(k)
             chk.ob(rid, "%s: %s.%s() accepted: %s" % (f.qual, recv, op, ACCEPTED[k][:80]), True, loc=f.qname, key="%s|%s|%s|%s" % (pid, rid, f.qual, op))
             continue
-        chk.ob(rid, "%s: no identity-unsafe operation on a possibly-identity result" % f.qual, False, loc="src/ecdsa/%s.py:%d" % (f.module, n.lineno), key="%s|%s|%s|%s|%s" % (pid, rid, f.qual, op, recv),
+        chk.ob(rid, "%s: no identity-unsafe operation on a possibly-identity result" % f.qual, False, loc="src/ecdsa/%s.py:%d" % (f.module, n.lineno), key="%s|%s|%s|%s|%s" % (pid, rid, f.qual, op, crecv),
                detail="%s applies %s to `%s`, which can be the identity object INFINITY: %s; the operation raises instead of returning the group result" % (f.qname, op, recv, why))
     chk.ob(rid, "every other use of a possibly-identity result in %d function(s) goes through an identity-safe operation or is guarded by == INFINITY (%d uses examined)" % (len(funcs), examined), True, loc="src/ecdsa/ellipticcurve.py", key="%s|%s|all" % (pid, rid))
